@@ -830,8 +830,10 @@ BOUNDED = [FactoryBattery()]
 def LATE_UNITS():
     # "stateful index projections": the inversion sampler walks the states through StatesManager; its contract (the next
     # admissible index, each admissible state once) and the bounded enumeration battery live with the pairings (c14)
-    from contracts import c14
-    return [c14.StatesManagerNext()]
+    from contracts import c14, c01
+    # the cells the multi-dimensional samplers integrate over are bounded by the neighbours ON EACH AXIS (c01's contract of
+    # left_point / right_point, axes of different lengths included)
+    return [c14.StatesManagerNext(), c01.Neighbours()]
 
 
 from contracts.c14 import StatesEnumerationBounded as _SEB     # noqa: E402  (bounded: every admissible state exactly once)
